@@ -84,11 +84,16 @@ CHECKS = {
   text="Context neutrality, the mechanism behind 're-using one evaluation context ... including after an error': for 0..2 (quick) / 0..3 (thorough) predicates, node lists of 0..2/3 opaque nodes, every combination of sub-evaluator outcomes (any boolean, or an error at any call) and an initial stack of depth 0 or 1 with symbolic entries, z3 decides on every path - success or error - that the context's size and position stacks are exactly what they were before the call. The sub-evaluators are these two functions again or context-free, so by induction a later query sees position() and last() as with a fresh context.",
   note="Partial: determinism of parsing, 'a query does not change the document' and namespace bindings are relations between whole runs over a live document and are outside. Sub-evaluators are stubs (listed in the evidence); node order/duplicates are not modelled.",
   design="4/C19", engine="S-kernel"),
+ "C07": dict(
+  technique="source-level symbolic execution (S-kernel) of eval_union_expr / eval_filtered_loc_expr / eval_filter_expr over opaque nodes with SYMBOLIC order keys and nondeterministic stubs for the sub-evaluators + SMT (z3); union counterexamples replayed as queries on a real document",
+  category="model_checking",
+  text="Node-set kernel: over a pool of 3 nodes whose order keys are symbolic, pairwise distinct, non-zero 64-bit values, z3 decides for every shape in the bounds that (union) the union of 1-3 document-ordered duplicate-free operand lists holds exactly the operands' nodes, each once, in strictly increasing key order - so A|B = B|A, A|A = A, count(A|B) <= count(A)+count(B); (paths) eval_filtered_loc_expr returns the step results of 1-2/3 context nodes (any order, duplicates) in non-decreasing key order with the same nodes; (filter) (E)[position()=t] selects the t-th node of the primary's list for any 64-bit t, i.e. positional filters on a parenthesised node-set count in the order `union` established.",
+  note="Partial: which nodes an axis or node test selects is C05 (not applicable); that order keys follow document order is C14, that every node kind reports its key is C06.s.siblings. Sub-evaluators and XmlNode::order are stubs (listed in the evidence). Pool of 3 nodes, operand lists <= 2/3 nodes.",
+  design="4/C07", engine="S-kernel"),
 }
 
 NA = {
  "C05": "needs xml_xpath::query to run on a live document: the evaluator walks the Rc<RefCell<..>> item graph behind a HashMap id table, which neither engine can encode (Kani could not build a two-element document in 25 min; the S-kernel has no heap-graph model). The scalar half of the evaluator is decided under C09, the expression grammar under C08.",
- "C07": "node-set order / de-duplication / union algebra are facts about evaluator results on documents (sorting and dedup by XmlNode::order over the item graph): same obstacle as C05. The order-vector kernel they rely on is decided under C14.",
  "C10": "namespace scoping (in_scope_namespace, find_nameapce_uri, as_expanded_name) recurses over parent links of the item graph; only the grammar's recognition of xmlns / xmlns:p attribute names is within reach and is decided inside C01/C02.",
  "C12": "the state is the heap graph itself (child vectors, parent_id, id_map of Rc/Weak items); no symbolic pre-state of it can be built in either engine, and bounded histories from a concrete state would be enumeration, not a solver verdict.",
  "C13": "same state as C12 for every tree mutator. The character-data mutators' semantics are decided under C16, their validation under C15; the panicking factories are a known finding of C15.",
@@ -103,7 +108,7 @@ m = {
            "baseline_off_cmd": "cd /repo && cargo test --workspace --no-fail-fast --offline", "source_commits": ["1af260d"], "add_only": True},
  "engines": [
   {"name": "S-grammar", "path": "engine/sx/nomsem.py", "serves_properties": ["C01", "C02", "C03", "C06", "C08", "C18"], "kind_free_text": "symbolic executor for the nom grammars read from /repo via engine/srcdump (syn); z3 QF_BV"},
-  {"name": "S-kernel", "path": "engine/sx/kernel.py", "serves_properties": ["C04", "C09", "C11", "C14", "C15", "C16", "C19"], "kind_free_text": "path-enumerating symbolic interpreter for small Rust functions read from the syn dump (engine/sx/kstd.py = std models); z3"},
+  {"name": "S-kernel", "path": "engine/sx/kernel.py", "serves_properties": ["C01", "C04", "C06", "C07", "C09", "C11", "C14", "C15", "C16", "C19"], "kind_free_text": "path-enumerating symbolic interpreter for small Rust functions read from the syn dump (engine/sx/kstd.py = std models); z3"},
   {"name": "Kani", "path": "kani/", "serves_properties": ["C18"], "kind_free_text": "Kani 0.68 / CBMC 6.11 harness crate with path dependencies on /repo crates"},
   {"name": "replay", "path": "replay/", "serves_properties": ["C01", "C02"], "kind_free_text": "Rust driver with path dependencies on /repo crates: replays solver models and validates the translator"},
  ],
